@@ -213,8 +213,9 @@ def ref_fco2(conc, ref, bsted, bface, fsink, wp):
 # ---------------------------------------------------------------------------------------------
 # pedotransfer function (Saxton & Rawls 2006, eqs. 1-5, 15-16), independent of Soil.calculate_soil_hydraulic_properties
 # ---------------------------------------------------------------------------------------------
-def saxton_rawls(sand_pct, clay_pct, om_pct):
-    """(th_wp, th_fc, th_s, Ksat mm/day) from sand / clay in PERCENT by weight and organic matter in percent (density factor 1)."""
+def saxton_rawls(sand_pct, clay_pct, om_pct, df=1.0):
+    """(th_wp, th_fc, th_s, Ksat mm/day) from sand / clay in PERCENT by weight, organic matter in percent and the density factor
+    (eqs. 6-10: saturation follows the adjusted density, field capacity loses 0.2 x the change in saturation)."""
     import math
 
     S, C, OM = sand_pct / 100.0, clay_pct / 100.0, float(om_pct)
@@ -225,6 +226,11 @@ def saxton_rawls(sand_pct, clay_pct, om_pct):
     ts33 = 0.278 * S + 0.034 * C + 0.022 * OM - 0.018 * S * OM - 0.027 * C * OM - 0.584 * S * C + 0.078
     s33 = ts33 + (0.636 * ts33 - 0.107)
     sat = fc + s33 - 0.097 * S + 0.043
+    if df != 1.0:
+        rho_n = (1.0 - sat) * 2.65
+        sat_df = 1.0 - rho_n * df / 2.65
+        fc = fc - 0.2 * (sat - sat_df)
+        sat = sat_df
     lam = (math.log(fc) - math.log(wp)) / (math.log(1500.0) - math.log(33.0))
     ks = 1930.0 * (sat - fc) ** (3.0 - lam) * 24.0
     return wp, fc, sat, ks
